@@ -432,7 +432,7 @@ package kcp
 //@   modifies all(kcp), all(kcp.snd_queue), kcp.snd_queue.elements[..], all(kcp.snd_buf), kcp.snd_buf.elements[..], kcp.buffer[..], all(DefaultSnmp)
 //@   ensures kcp.wf()
 //@   ensures kcp.conv == old(kcp.conv) && kcp.mtu == old(kcp.mtu) && kcp.mss == old(kcp.mss) && kcp.buffer == old(kcp.buffer)
-//@   ensures kcp.snd_wnd == old(kcp.snd_wnd) && kcp.rcv_wnd == old(kcp.rcv_wnd) && kcp.rcv_nxt == old(kcp.rcv_nxt)
+//@   ensures kcp.snd_wnd == old(kcp.snd_wnd) && kcp.rcv_wnd == old(kcp.rcv_wnd) && kcp.rcv_nxt == old(kcp.rcv_nxt) && kcp.rmt_wnd == old(kcp.rmt_wnd)
 //@   ensures kcp.rcv_queue == old(kcp.rcv_queue) && kcp.rcv_buf == old(kcp.rcv_buf) && kcp.snd_queue == old(kcp.snd_queue) && kcp.snd_buf == old(kcp.snd_buf)
 //@   ensures kcp.rx_rto == old(kcp.rx_rto) && kcp.rx_minrto == old(kcp.rx_minrto) && kcp.interval == old(kcp.interval)
 //@   ensures kcp.snd_una == old(kcp.snd_una) && len(kcp.acklist) <= old(len(kcp.acklist))
@@ -468,6 +468,8 @@ package kcp
 //@   callsite KCP.ack_push requires @C11 [only-segments-of-this-conversation-are-processed] le32(data, 0 - 24) == kcp.conv
 //@   callsite KCP.ack_push requires @C01 [acknowledged-only-if-already-delivered-or-inside-the-window-where-it-is-kept] itimediff(arg_sn, addu32(kcp.rcv_nxt, kcp.rcv_wnd)) < 0
 //@   ensures @C01 [receive-queue-in-sequence-order] old(kcp.rcvQ()) ==> kcp.rcvQ()
+//@   ensures @C04 [the-peers-window-is-taken-from-regular-packets-only] pktType != 0 ==> kcp.rmt_wnd == old(kcp.rmt_wnd)
+//@   loop 1 invariant @C04 pktType != 0 ==> kcp.rmt_wnd == old(kcp.rmt_wnd)
 //@   loop 1 invariant old(kcp.rcvQ()) ==> kcp.rcvQ()
 //@   requires kcp.wf()
 //@   modifies all(kcp), all(kcp.snd_queue), kcp.snd_queue.elements[..], all(kcp.snd_buf), kcp.snd_buf.elements[..]
